@@ -7,6 +7,9 @@ A program is a list of commands (JSON-able lists):
   ["setreg", key, value]             DurationRegistry.set_registry_at
   ["setrep", key, value]             RepetitionRegistry.set_registry_at
   ["op", c, cls, qs, chan, dur, tag, reg, ints, rel]   create + add an operation → handle
+        rel = None | [h, "FB"|"JS"|"JE"]   a fresh RelationLink to handle h
+            | [h, "SAME"]                  the very link OBJECT handle h carries at that moment (shared instance)
+            | [[h1, h2, …], "FB"|"JS"|"JE"]  a fresh MultiRelationLink (latest of the group) with that relation type
   ["sub", a, b]                      a.add(b) → handle
   ["list", c] ["dur", c] ["chans", c] ["reps", c]       observers (list = listing + times + acquisition indices)
   ["ops", c]                         pure listing (c.operations only; answers the count)
@@ -45,6 +48,20 @@ def _ints(xs):
     return ','.join(str(x) for x in xs) if xs else '-'
 
 
+def rel_spec(rel) -> str:
+    if rel is None:
+        return '-'
+    if isinstance(rel[0], list):
+        return 'm' + '+'.join(str(h) for h in rel[0]) + f':{rel[1]}'
+    return f'{rel[0]}:{rel[1]}'
+
+
+def rel_handles(rel) -> list:
+    if rel is None:
+        return []
+    return list(rel[0]) if isinstance(rel[0], list) else [rel[0]]
+
+
 def to_lines(prog, ambient):
     """Driver lines for a program. `ambient` = (ro, mw, fl, rs) in force outside overrides."""
     lines = ['heap reset', 'heap gdur %d %d %d %d' % tuple(ambient)]
@@ -53,7 +70,7 @@ def to_lines(prog, ambient):
         if k == 'op':
             _, c, cls, qs, chan, dur, tag, reg, ints, rel = cmd
             ints_s = ','.join('n' if x is None else str(x) for x in ints) if ints else '-'
-            rel_s = '-' if rel is None else f'{rel[0]}:{rel[1]}'
+            rel_s = rel_spec(rel)
             lines.append(f'heap op {c} {cls} {_ints(qs)} {chan} {dur or "-"} {tag} {reg} {ints_s} {rel_s}')
         elif k == 'gdur':
             lines.append('heap gdur %d %d %d %d' % tuple(cmd[1:5]))
@@ -287,7 +304,13 @@ class ImplRun:
         C = a.classes[cls]
         kw = {}
         if rel is not None and cls not in NO_RELATION_ARG:
-            kw['relation'] = a.RelationLink(self.handles[rel[0]], a.RT[rel[1]])
+            if isinstance(rel[0], list):
+                kw['relation'] = a.MultiRelationLink(_reference_nodes=[self.handles[h] for h in rel[0]],
+                                                     _relation_type=a.RT[rel[1]])
+            elif rel[1] == 'SAME':
+                kw['relation'] = self.handles[rel[0]].relation_link
+            else:
+                kw['relation'] = a.RelationLink(self.handles[rel[0]], a.RT[rel[1]])
         if dur is not None and cls in DUR_SETTABLE:
             kw['duration_strategy'] = self._dur(dur)
         if cls in CHANNELLED or cls == 'VirtualTwoQubitVacant':
@@ -489,6 +512,9 @@ class GenConfig:
         self.p_regrep = 0.15
         self.final_list = True
         self.measure_weight = 1.0
+        self.tags = [0, 1, 2, 12]      # 't1' is a substring/prefix of 't12'
+        self.p_same = 0.04             # share the link object of an earlier handle
+        self.p_multi = 0.04            # explicit group relation (MultiRelationLink) of any relation type
         self.allow_zero_gdur = False
         self.max_nest = 4
         self.max_size = 60              # bound on the number of leaves of a circuit after unrolling
@@ -528,7 +554,7 @@ def gen_op(rng, cfg, c, ncircs, handles_here, nhandles, force_cls=None):
         elif r < 0.95:
             dur = 'd'
     if cls == 'DispersiveMeasure':
-        tag = rng.randrange(3)
+        tag = rng.choice(cfg.tags)
         reg = c if rng.random() < 0.8 else rng.randrange(ncircs)
         if reg in getattr(cfg, '_copies', ()):
             reg = 0   # a raw structure copy has no acquisition registry of its own
@@ -542,8 +568,15 @@ def gen_op(rng, cfg, c, ncircs, handles_here, nhandles, force_cls=None):
         ints = [rng.choice([None, rng.randrange(0, 9)]), rng.choice([None, rng.randrange(0, 9)])]
     rel = None
     if cls not in NO_RELATION_ARG:
-        if handles_here and rng.random() < cfg.p_rel:
+        r = rng.random()
+        if handles_here and r < cfg.p_rel:
             rel = [rng.choice(handles_here), rng.choice(['FB', 'JS', 'JE'])]
+        elif handles_here and r < cfg.p_rel + cfg.p_same:
+            # the link OBJECT of an earlier operation of this circuit (two cooperating users of one link)
+            rel = [rng.choice(handles_here), 'SAME']
+        elif len(handles_here) >= 2 and r < cfg.p_rel + cfg.p_same + cfg.p_multi:
+            k = rng.randrange(2, min(3, len(handles_here)) + 1)
+            rel = [rng.sample(handles_here, k), rng.choice(['FB', 'JS', 'JE'])]
         elif nhandles and rng.random() < cfg.p_foreign:
             rel = [rng.randrange(nhandles), rng.choice(['FB', 'JS', 'JE'])]
     return ['op', c, cls, qs, chan, dur, tag, reg, ints, rel]
@@ -660,8 +693,9 @@ def features(prog) -> dict:
             f['ops'] += 1
             f['cls'][cmd[2]] = f['cls'].get(cmd[2], 0) + 1
             if cmd[9] is not None:
-                f['rel'][cmd[9][1]] = f['rel'].get(cmd[9][1], 0) + 1
-                if owner.get(cmd[9][0]) != cmd[1]:
+                kind = ('group-' if isinstance(cmd[9][0], list) else '') + cmd[9][1]
+                f['rel'][kind] = f['rel'].get(kind, 0) + 1
+                if any(owner.get(h) != cmd[1] for h in rel_handles(cmd[9])):
                     f['foreign'] += 1
             if cmd[5] == 'f0':
                 f['zero_dur'] += 1
